@@ -65,6 +65,8 @@ def alphabet(kind):
         ("delete_channel(Na)@branch(0)", lambda m: cellv(m).branch(0).delete_channel(CH.Na())),
         ("delete_channel(Na)@all", lambda m: m.delete_channel(CH.Na())),
         ("delete_channel(K)@all", lambda m: m.delete_channel(CH.K())),
+        ("delete_channel(K)@branch(0)", lambda m: cellv(m).branch(0).delete_channel(CH.K())),
+        ("delete_channel(CaL)@branch(2).comp(0)", lambda m: cellv(m).branch(2).comp(0).delete_channel(CH.CaL())),
         ("delete_channel(CaT)@all", lambda m: m.delete_channel(CH.CaT())),
         ("set(radius)@branch(1)", lambda m: cellv(m).branch(1).set("radius", 2.5)),
         ("set(vt)@all", lambda m: m.set("vt", -55.0)),
@@ -247,6 +249,10 @@ def _history(kind, tier, chunk, nchunks, is_canary):
         H += h3 if tier != "quick" else h3[:: (37 if not is_canary else 211)]
         H += [("stimulate@branch(2).comp(0)", "stimulate@branch(0)", "delete_stimuli@branch(0)"), ("stimulate@branch(0)", "stimulate@branch(2).comp(0)", "delete_stimuli@branch(0)"),
               ("clamp(v)@branch(1)", "stimulate@branch(0)", "delete_clamps"),
+              # channels that share a parameter column / current name, placed on disjoint views, one of them deleted through its view
+              ("insert(K)@branch(0)", "insert(Km)@branch(1)", "delete_channel(K)@branch(0)"), ("insert(Km)@branch(1)", "insert(K)@branch(0)", "delete_channel(K)@branch(0)"),
+              ("insert(CaT)@branch(2)", "insert(CaL)@branch(2).comp(0)", "delete_channel(CaL)@branch(2).comp(0)"), ("insert(K)@branch(2).comp(1)", "insert(Na)@all", "delete_channel(Na)@branch(0)"),
+              ("insert(K)@branch(0)", "insert(Na)@all", "delete_channel(K)@branch(0)", "delete_channel(Na)@all"),
               ("stimulate@branch(2).comp(0)", "stimulate@branch(1)", "stimulate@branch(0)", "delete_stimuli@branch(0)"),
               ("stimulate@branch(1)", "stimulate@branch(0)", "stimulate@branch(2).comp(0)", "delete_stimuli@branch(0)", "record(v)@all")]
         H = H[chunk::nchunks]
@@ -496,7 +502,7 @@ def main(tier):
         ref = oc[0] == "ok" and not oc[1]["error"] and any(r["status"] != "proved" for r in oc[1]["results"])
         ck.canaries.append((f"{can[0]}: {can[2][:50]!r} -> {can[3][:50]!r}", ref))
     ck.bounded = {"evaluations": evals, "distinct_nontrivial": cases, "exhaustive": tier != "quick", "refused_operations": refused, "states_simulated_symbolically": len(states),
-                  "rule": "alphabet of 31 (cell) / 33 (network) view x operation letters (insert/delete_channel of HH, Na, K, Km, CaT, CaL on various views; set; add_to_group; record; delete_recordings; stimulate; clamp; delete_stimuli (view and module); delete_clamps; "
+                  "rule": "alphabet of 33 (cell) / 35 (network) view x operation letters (insert/delete_channel of HH, Na, K, Km, CaT, CaL on various views; set; add_to_group; record; delete_recordings; stimulate; clamp; delete_stimuli (view and module); delete_clamps; "
                           "make_trainable; delete_trainables; init_states; set_ncomp (cell) / connect and set on a synapse view (network)) on an irregular cell (ncomp [2,1,3]) and a 2-cell network with 2 synapse types; all histories of depth 1 and 2, depth 3 with stride 37 (quick) / all (thorough); "
                           "wf evaluated after every accepted operation (evaluations); a case = a distinct fully accepted history"}
     for f in ("jaxley.modules.base.Module.insert", "jaxley.modules.base.Module.delete_channel", "jaxley.modules.base.Module.set", "jaxley.modules.base.Module.set_ncomp", "jaxley.modules.base.Module.add_to_group",
